@@ -659,7 +659,7 @@ var methodFacet = harness.Register(&harness.Facet[methodCase]{
 	Name:     "methods",
 	Rule:     "rapid: receiver = array (literal or built by assignment) or plain array-like object, ≤ 8 elements from a value pool with holes, object length from {exact, nearby, missing, odd pool: numeric strings, fractions, NaN, ±Infinity, values ≥ 2^32, negative values wrapping below 10^4, booleans, null, valueOf/toString objects, 100/300/10000}; 0–2 restrictions (frozen element, non-configurable element, non-writable length, freeze, seal, preventExtensions, index inherited from Array.prototype/Object.prototype, writable or not; fresh runtime for those); one 15.4.4 method (all except sort) with arguments from the odd pool (negative, fractional, NaN, ±Infinity, ≥ length, 2^31, 2^32, 2^53, undefined, omitted, numeric strings, logging valueOf/toString objects); callbacks log (arguments.length, value, typeof index, index, receiver identity, this), may mutate the receiver (push/pop/delete/length=/set) at a chosen invocation, throw, or return odd truthiness; compared with the lib/m08 transcription of ES5.1 15.4.4: receiver before, return value (own properties, attributes, holes), thrown class/value, conversion+callback log, receiver after (every own property with attributes, extensibility, prototype), argument arrays after. non-trivial = receiver has a hole/inherited index/restricted attribute/odd length, or an argument is not a small non-negative integer, or the callback mutates; distinct by the whole case",
 	Quick:    9000,
-	Thorough: 60000,
+	Thorough: 40000,
 	Gen:      genMethodCase,
 	Check:    checkMethod,
 })
